@@ -177,6 +177,11 @@ Spans of submodels differ:
             }
         )
 
+        # As in `VectorContainer.copy()`: drop anything `__init__()` set up
+        # that the original does not have
+        for k in [k for k in copied.__dict__ if k not in self.__dict__]:
+            del copied.__dict__[k]
+
         return copied
 
     __copy__ = copy
